@@ -62,6 +62,7 @@ class Ctx:
         self.undecided_clauses = []
         self.bounded = []
         self.notes = []
+        self.seen_fingerprints = {}
         self.weak_ids = set()    # id substrings of obligations that are contracts on *helpers* (implementation level): when one fails
         #                          and the property-level native contract finds no failing input, the verdict is undecided
         self.covers = 0
@@ -100,6 +101,7 @@ class Ctx:
             self.undecided_clauses += d["undecided_clauses"]
             self.bounded += d["bounded"]
             self.notes += d["notes"]
+            self.seen_fingerprints.update(d.get("fps", {}))
             self.covers += d["covers"]
             self.canaries += d["canaries"]
 
@@ -271,6 +273,20 @@ class Ctx:
         if not res:
             res.append(self.add(ObResult(f"{prefix}/{name}/no-obligations", "error",
                                          detail="VC generation produced zero obligations")))
+        # were the function under contract and the callees executed inline restructured since the contracts were written?
+        from . import eff as _eff
+        idx_ = _eff.qualname_index(self.mods)
+        fp = stored_fingerprints()
+        changed = []
+        for (m_, q_) in [(module, qualname)] + sorted(I.inlined):
+            f_ = idx_.get((m_, q_))
+            key_ = f"{m_}.{q_}"
+            self.seen_fingerprints[key_] = statement_shape(f_) if f_ is not None else None
+            if f_ is not None and key_ in fp and fp[key_] != self.seen_fingerprints[key_]:
+                changed.append(key_.replace("tempest.", ""))
+        if changed:
+            for r in res:
+                r.restructured = changed
         gaps = getattr(I, "annotation_gaps", None)
         if gaps:
             flat = sorted({f"{q.split('.')[-1]}:{x}" for ((m_, q), ln), names in gaps.items() for x in names})
@@ -304,6 +320,50 @@ class Ctx:
 _PAR = None
 
 
+def statement_shape(fdef):
+    """Structural fingerprint of a function: the nesting of statement kinds (with the kind of each assignment target), ignoring
+    names, constants, operators and the expressions themselves.  Small edits keep it; a restructured function does not."""
+    import ast as _ast
+    import hashlib
+
+    def sh(stmts):
+        out = []
+        for s_ in stmts:
+            if isinstance(s_, _ast.Expr) and isinstance(s_.value, _ast.Constant) and isinstance(s_.value.value, str):
+                continue          # docstring
+            k = type(s_).__name__
+            if isinstance(s_, _ast.Assign):
+                k += ":" + ",".join(type(t).__name__ for t in s_.targets)
+            elif isinstance(s_, (_ast.AugAssign, _ast.AnnAssign)):
+                k += ":" + type(s_.target).__name__
+            sub = []
+            for fld in ("body", "orelse", "finalbody"):
+                b = getattr(s_, fld, None)
+                if isinstance(b, list) and b and isinstance(b[0], _ast.stmt):
+                    sub.append((fld, sh(b)))
+            for h in getattr(s_, "handlers", []) or []:
+                sub.append(("except", sh(h.body)))
+            out.append((k, tuple(sub)))
+        return tuple(out)
+    return hashlib.sha256(repr((len(fdef.args.args), sh(fdef.body))).encode()).hexdigest()[:16]
+
+
+_FP = None
+
+
+def stored_fingerprints():
+    global _FP
+    if _FP is None:
+        import json as _json
+        import os as _os
+        p = _os.path.join(_os.path.dirname(_os.path.dirname(_os.path.abspath(__file__))), "fingerprints.json")
+        try:
+            _FP = _json.load(open(p))
+        except Exception:
+            _FP = {}
+    return _FP
+
+
 def _par_run(i):
     ctx, thunks = _PAR
     base = dict(n=len(ctx.results), secs=ctx.solver_secs, nf=len(ctx.functions), tr=set(ctx.trusted),
@@ -319,4 +379,4 @@ def _par_run(i):
     return dict(results=out, solver_secs=ctx.solver_secs - base["secs"], functions=ctx.functions[base["nf"]:] + [
         f for f in ctx.functions[:base["nf"]]], trusted=ctx.trusted - base["tr"],
         undecided_clauses=ctx.undecided_clauses[base["nu"]:], bounded=ctx.bounded[base["nb"]:], notes=ctx.notes[base["nn"]:],
-        covers=ctx.covers - base["cov"], canaries=ctx.canaries - base["can"])
+        covers=ctx.covers - base["cov"], canaries=ctx.canaries - base["can"], fps=dict(ctx.seen_fingerprints))
